@@ -4,7 +4,8 @@
 // Included unit: `tree` (RevisionTree / RevisionTreeEntry mirrors, `RevisionTree::commit`, `has_staging`, `get_revisions`,
 // `get_winner`, `get_leafs`, `RevisionTreeEntry::is_staging/get_parent` — all RE-VERIFIED from the real code in this file;
 // `tree` includes `rev`: Revision, `digest_string`, `dec`).
-// Proved FROM THE REAL CODE here: Melda::commit, DataStorage::write_raw_item, DeltaId::new / new_from_anchors / key.
+// Proved FROM THE REAL CODE here: Melda::commit (the committing pass calls the real RevisionTree::commit on every tree),
+// DataStorage::write_raw_item, DeltaId::new / new_from_anchors / key.
 // ASSUMED (every `#[verifier::external_body]` item below, each with its source):
 //   * the Adapter contract on `AdapterBox::write_object`         — unit `pack` (assumed there too), PROVED for MemoryAdapter & wrappers in unit `adapter`
 //   * `DataStorage::pack`                                         — PROVED in unit `pack` (a consequence of its contract is used)
@@ -12,7 +13,8 @@
 //   * `Melda::resolve_as`                                         — NOT under contract anywhere: frame-style assumption, see below
 //   * `Melda::has_staging` (rayon `par_iter().any`)               — replaced by its meaning
 //   * `Delta::to_json_string`                                     — the text is a FUNCTION of the block (`block_text`), shape proved in unit `block`
-//   * iteration over `documents` / over a tree's revisions, std set constructors, clones, sha256, utf-8 — assumed of std / sha2
+//   * iteration over `documents` (entry snapshot for the first pass; key enumeration + `&mut` access to the tree of a key for
+//     the passes that lock each tree first) / over a tree's revisions, std set constructors, clones, sha256, utf-8 — assumed of std / sha2
 // Modelling (R6, lock erasure): `RwLock<T>` / `Mutex<T>` -> `T`, single-threaded semantics, blocking and poisoning dropped.
 // NOTE the real `commit` holds the tree mutex and the documents read guard while it calls `resolve_as`, which re-locks both:
 // with more than one leaf in an array descriptor the real call never returns (finding D5, property C08).  The contract below
@@ -129,7 +131,8 @@ pub uninterp spec fn sset(s: BTreeSet<String>) -> Set<Seq<char>>;
 pub uninterp spec fn dmap(m: BTreeMap<String, RevisionTree>) -> Map<Seq<char>, RevisionTree>;
 pub type Docs = Map<Seq<char>, RevisionTree>;
 
-/// R18 + R6: `for (uuid, rt) in self.documents.read().unwrap().iter()` = an enumeration of the entries, each key once.
+/// R18 + R6 (FIRST pass only, the one that calls `self.resolve_as` while it iterates):
+/// `for (uuid, rt) in self.documents.read().unwrap().iter()` = an enumeration of the entries, each key once.
 /// In the real code the values are `&Mutex<RevisionTree>` (interior mutability: `&self` methods called in the loop body may
 /// change the trees while the iteration goes on); after lock erasure the values are `&RevisionTree`, so the lifetime of the
 /// snapshot is NOT tied to the map.  `commit`'s first loop proves that every tree it reads through the snapshot is still
@@ -220,6 +223,17 @@ pub fn vx_did_text(d: &DeltaId) -> (s: String) ensures s@ == did_str(d@) { unimp
 pub fn vx_max_index(anchors: &BTreeSet<DeltaId>) -> (r: u32)
     ensures
         forall|a: DeltaId| anchors@.contains(a) ==> a.0 <= r,
+        anchors@.len() == 0 ==> r == 0,
+        anchors@.len() > 0 ==> exists|a: DeltaId| anchors@.contains(a) && a.0 == r,
+{ unimplemented!() }
+
+/// R12: `anchors.iter().map(|a| a.index()).min().unwrap_or(0)`: the SMALLEST index among the anchors, 0 if there is none.
+/// Not used by the pinned code; the rule exists so that a change of the pipeline from `max` to `min` is judged by the
+/// contract of `new_from_anchors` instead of being rejected as unsupported syntax.
+#[verifier::external_body]
+pub fn vx_min_index(anchors: &BTreeSet<DeltaId>) -> (r: u32)
+    ensures
+        forall|a: DeltaId| anchors@.contains(a) ==> r <= a.0,
         anchors@.len() == 0 ==> r == 0,
         anchors@.len() > 0 ==> exists|a: DeltaId| anchors@.contains(a) && a.0 == r,
 { unimplemented!() }
@@ -422,8 +436,9 @@ pub open spec fn changes_of(docs: Docs, changes: Option<Vec<Change>>) -> bool {
 
 // ---- the contract of a successful commit, with its witnesses: the new identifier / block, the trees after step (1)
 // (`mid`: automatic conflict resolution may have staged more) and the storage after the pack step (`s1`)
-pub open spec fn commit_post(o: Melda, n: Melda, s: Set<DeltaId>, id: DeltaId, d: Delta, mid: Docs, s1: Store) -> bool {
+pub open spec fn commit_post(o: Melda, n: Melda, info: Option<JMap>, s: Set<DeltaId>, id: DeltaId, d: Delta, mid: Docs, s1: Store) -> bool {
     // A
+    &&& d.info == info
     &&& s == Set::<DeltaId>::empty().insert(id)
     &&& n.deltas@ == o.deltas@.insert(id, d)
     &&& new_block(o.deltas@, id, d)
@@ -437,8 +452,8 @@ pub open spec fn commit_post(o: Melda, n: Melda, s: Set<DeltaId>, id: DeltaId, d
     // E
     &&& changes_of(mid, d.changes)
 }
-pub open spec fn commit_ok(o: Melda, n: Melda, s: Set<DeltaId>) -> bool {
-    exists|id: DeltaId, d: Delta, mid: Docs, s1: Store| #[trigger] commit_post(o, n, s, id, d, mid, s1)
+pub open spec fn commit_ok(o: Melda, n: Melda, info: Option<JMap>, s: Set<DeltaId>) -> bool {
+    exists|id: DeltaId, d: Delta, mid: Docs, s1: Store| #[trigger] commit_post(o, n, info, s, id, d, mid, s1)
 }
 /// a failed commit: no block is recorded, NO tree has been committed (what was staged is still staged; step (1) may have
 /// staged more), and the storage is unchanged or has gained exactly the pack item — never the block
@@ -661,8 +676,8 @@ pub proof fn lemma_ext_differ(s: Seq<char>)
 }
 /// C09 (success): storage only grew; the block item is stored; every pack the block names is stored ("a block never
 /// reaches storage before the pack it references"); a block item written by this commit holds the block's text
-pub proof fn lemma_block_after_its_packs(o: Melda, n: Melda, s: Set<DeltaId>, id: DeltaId, d: Delta, mid: Docs, s1: Store)
-    requires commit_post(o, n, s, id, d, mid, s1),
+pub proof fn lemma_block_after_its_packs(o: Melda, n: Melda, info: Option<JMap>, s: Set<DeltaId>, id: DeltaId, d: Delta, mid: Docs, s1: Store)
+    requires commit_post(o, n, info, s, id, d, mid, s1),
     ensures
         store_grows(o.data.adapter.store(), n.data.adapter.store()),
         n.data.adapter.store().contains_key(did_key(id@)),
@@ -710,4 +725,16 @@ pub proof fn lemma_failed_commit_keeps_staged(o: Melda, n: Melda)
             lemma_ext_differ(pkey(p));
         }
     }
+}
+/// `utils::digest_string(s) = digest_bytes(s.as_bytes())`: the digest of a text is the digest of its UTF-8 bytes
+/// (hypothesis of the lemma below, true by definition of the two utils functions; NOT assumed by the contract of commit)
+pub open spec fn sha_text_is_sha_of_bytes() -> bool { forall|t: Seq<char>| #[trigger] sha_hex(t) == sha_hex_b(utf8(t)) }
+/// C10 link: the block item written by a commit passes the hash check of `fetch_raw_delta` (unit `delta`: the bytes stored
+/// under the block's key hash to the digest in its name)
+pub proof fn lemma_block_item_hash_checked(o: Melda, n: Melda, info: Option<JMap>, s: Set<DeltaId>, id: DeltaId, d: Delta, mid: Docs, s1: Store)
+    requires commit_post(o, n, info, s, id, d, mid, s1), sha_text_is_sha_of_bytes(), !o.data.adapter.store().contains_key(did_key(id@)),
+    ensures sha_hex_b(n.data.adapter.store()[did_key(id@)]) == id@.1,
+{
+    lemma_block_after_its_packs(o, n, info, s, id, d, mid, s1);
+    assert(sha_hex(block_text(unnamed(d))) == sha_hex_b(utf8(block_text(unnamed(d)))));
 }
